@@ -330,7 +330,7 @@ def check(rep, tier, seed):
         if not quick:
             gen_consts.append({"Scope": 2, "MaxDelta": 1, "MaxLen": 4})
         for gc in gen_consts:
-            res = pmap(_gen_term, [(gc, k) for k in range(1, 15)], procs=14, chunk=1)
+            res = pmap(_gen_term, [(gc, k) for k in range(1, 15 if gc["Scope"] == 1 else 14)], procs=14, chunk=1)   # the last term has no partner
             for cs in res:
                 cases += cs
     finally:
